@@ -236,6 +236,6 @@ TRUSTED = ["async_solipsism virtual-time loop", "frequenz.channels.Broadcast", "
 
 META = {
     "technique": "Coq proof about a Kahn-style functional model of FormulaEvaluator.apply/_synchronize_metric_timestamps, FormulaEngine._run and FormulaEngine3Phase._run (induction over rounds, invariant 'all inputs stand at the same grid point') + differential correspondence: real FormulaEngine/FormulaEngine3Phase over Broadcast channels on async_solipsism with randomised delivery schedules vs the model evaluated in Coq",
-    "level_text": "Machine-checked theorems (closed under the global context): for inputs on a common grid with arbitrary per-stream first timestamps the model's k-th output is (T0+k*d, f(values of every stream at T0+k*d)), for every iteration order of the task set in every round, with the exact number of outputs (none skipped, repeated, reordered); the (repaired) 3-phase zipper only emits samples whose three phase samples carry the emitted timestamp, for ANY phase streams, and loses nothing on grid phase streams. The model is tied to the code by running the real engines over Broadcast inputs under hundreds of random interleavings (1-5 streams, first timestamps -3..+3 steps apart, backlog <= 40, consumer subscribed at a random point, off-grid streams with prescribed set order) and comparing all outputs exactly inside Coq; the property is also judged directly on the recorded outputs (every output value encodes which sample of every input produced it).",
+    "level_text": "Machine-checked theorems (closed under the global context): for inputs on a common grid with arbitrary per-stream first timestamps the model's k-th output is (T0+k*d, f(values of every stream at T0+k*d)), for every iteration order of the task set in every round, with the exact number of outputs (none skipped, repeated, reordered); the (repaired) 3-phase zipper only emits samples whose three phase samples carry the emitted timestamp, for ANY phase streams, and loses nothing on grid phase streams. The model is tied to the code by running the real engines over Broadcast inputs under hundreds of random interleavings (1-5 streams, first timestamps -3..+3 steps apart, backlog <= 40, consumer subscribed at a random point, off-grid streams with prescribed set order; start-ups in which a lagging input has a gap so that the first synchronisation fails and must be repeated; engines composed with the operator API over two levels from from_receiver engines, with 1-5 simultaneous consumers sharing input engines, all subscribed at once) and comparing all outputs exactly inside Coq (a composed engine is the model applied to the model outputs of its inputs); the property is also judged directly on the recorded outputs (every output value encodes which sample of every input produced it).",
     "level_note": "Partial by nature: that the running system computes the model's function of the stream contents rests on the correspondence runs and on the runtime assumptions (Broadcast order/no loss within the receiver limit, asyncio scheduling). Formula arithmetic is the sum here (C05/C13 own it). Closed input streams are outside this property.",
 }
